@@ -832,6 +832,26 @@ func (env *CEnv) call(e *CExpr) V {
 		}
 		// Go conversion: extension is decided by the source signedness
 		return vBV(resize(v.T, v.W, w, v.Signed), w, signed)
+	case "tid", "rtype":
+		// tid(T): the type word of an interface holding a value of basic type T;
+		// rtype(T): reflect.TypeOf of such a value
+		if len(e.Args) != 1 || e.Args[0].Op != "ident" {
+			cfail("%s(T) needs a basic type name", e.Tok)
+		}
+		var bt types.Type
+		for _, b := range types.Typ {
+			if b.Name() == e.Args[0].Tok {
+				bt = b
+			}
+		}
+		if bt == nil {
+			cfail("%s: unknown basic type %s", e.Tok, e.Args[0].Tok)
+		}
+		id := env.st.x.typeID(bt)
+		if e.Tok == "tid" {
+			return vPtr(id, nil)
+		}
+		return V{K: KTuple, Fs: []V{vPtr(app("rtypT", id), nil), vPtr(app("rtypD", id), &Prov{Space: "H", Region: "meta"})}}
 	case "bits":
 		if len(e.Args) == 1 && e.Args[0].Op == "ident" {
 			if w, _, ok := typeByName(e.Args[0].Tok, env.tparam); ok {
